@@ -50,7 +50,7 @@ Begin == /\ Is("begin") /\ l' = l + 1 /\ e' = [ev |-> "begin", id |-> 0, line |-
 \* number of observation pairs a relation has compared so far (vacuity guard: reported at the end
 \* of every trace; a script whose relations compared nothing is a tool error)
 Pairs(r) ==
-  CASE r.mode \in {"full", "ctl", "chan"} -> Min(Len(obs[r.a]), Len(obs[r.b]))
+  CASE r.mode \in {"full", "ctl", "chan", "delay"} -> Min(Len(obs[r.a]), Len(obs[r.b]))
     [] r.mode = "blocks" -> Min(Len(blk[r.a]), Len(blk[r.b]))
     [] r.mode = "taus"   -> Min(Len(tau[r.a]), Len(tau[r.b]))
     [] r.mode = "poly"   -> Min(Len(tau[r.a]), Len(val[r.b]))
@@ -137,6 +137,16 @@ TwinCtl ==
           y == obs[r.b][k]
       IN x.cls = y.cls /\ x.res = y.res /\ x.nin = y.nin /\ x.nout = y.nout /\ x.g = y.g
 
+\* C14: output_delay() is a function of the configuration and the ratio in force.  Instance a reaches its
+\* ratios through ramped changes, instance b through immediate ones; after every processing call both run at
+\* the same ratio (a ramp completes within one chunk), so they must report the same delay.
+TwinDelay ==
+  \A r \in rel : (r.mode = "delay" /\ Touches(r)) =>
+    \A k \in 1..Common(r) :
+      LET x == obs[r.a][k]
+          y == obs[r.b][k]
+      IN (x.cls = "proc" /\ y.cls = "proc" /\ x.res = "ok" /\ y.res = "ok") => x.g.delay = y.g.delay
+
 \* channel c of instance a (n channels) equals channel 0 of instance b (1 channel)
 TwinChan ==
   \A r \in rel : (r.mode = "chan" /\ Touches(r)) =>
@@ -194,6 +204,7 @@ Soft(name, ok) == ok \/ PrintT("VIOL|-|" \o Where(name))
 H_TwinFull == TwinFull       S_TwinFull == Soft("TwinFull", TwinFull)
 H_TwinCtl == TwinCtl         S_TwinCtl == Soft("TwinCtl", TwinCtl)
 H_TwinChan == TwinChan       S_TwinChan == Soft("TwinChan", TwinChan)
+H_TwinDelay == TwinDelay     S_TwinDelay == Soft("TwinDelay", TwinDelay)
 H_TwinBlocks == TwinBlocks   S_TwinBlocks == Soft("TwinBlocks", TwinBlocks)
 H_TwinTaus == TwinTaus       S_TwinTaus == Soft("TwinTaus", TwinTaus)
 H_TwinPoly == TwinPoly       S_TwinPoly == Soft("TwinPoly", TwinPoly)
